@@ -442,6 +442,16 @@ class DataFileManager:
         table_path = self.file_manager.table_path
         return os.path.join(table_path, path.lstrip("/"))
 
+    def _refuse_table_root(self, file_path: str, arrow_path: str) -> None:
+        """A data file path that resolves to the table root itself ("", ".",
+        "data/..", the root's absolute path) passes the containment check, but
+        the writer would create its temp file in the root's PARENT directory -
+        outside the table. Reject it before any file system effect."""
+        if isinstance(self.storage, LocalStorageBackend) and arrow_path == self.storage._real_base_path():
+            raise ValueError(
+                f"Security Error: path '{file_path}' denotes the table root itself, not a file inside it"
+            )
+
     def create_arrow_schema(self, iceberg_schema: Schema) -> pa.Schema:
         """Convert Iceberg schema to PyArrow schema"""
         if iceberg_schema.schema_id in self._arrow_schema_cache:
@@ -569,6 +579,7 @@ class DataFileManager:
 
         # Convert path for PyArrow (adds bucket prefix for S3)
         arrow_path = self._get_arrow_path(file_path)
+        self._refuse_table_root(file_path, arrow_path)
 
         # Convert records to Arrow table to compute statistics before writing
         lower_bounds = None
@@ -694,6 +705,7 @@ class DataFileManager:
 
         # Convert path for PyArrow (adds bucket prefix for S3)
         arrow_path = self._get_arrow_path(file_path)
+        self._refuse_table_root(file_path, arrow_path)
 
         # Compute column bounds before writing (parity with write_data_file so
         # pandas-written files participate in pruning)
